@@ -68,22 +68,8 @@ def run(ctx):
         return
     # sum: 0 then sum + w*e only.  The running total may be handed through copies (a helper's parameter and result, a
     # fold's accumulator): take the web of locals connected to it by plain copies and classify every other definition.
-    web = {sum_local}
-    changed = True
-    while changed:
-        changed = False
-        for l in range(len(b.locals)):
-            for (dbi, si, kind, rv) in tr.defs.of(l):
-                if dbi not in cfg.reach or kind != 'assign' or rv['r'] != 'use' or 'l' not in rv['a']:
-                    continue
-                o = tr.origin(rv['a'])
-                if o['o'] == 'local' and not o['p']:
-                    if o['l'] in web and l not in web:
-                        web.add(l)
-                        changed = True
-                    elif l in web and o['l'] not in web:
-                        web.add(o['l'])
-                        changed = True
+    from ..mirutil import copy_web
+    web = copy_web(b, tr, cfg.reach, sum_local)
     acc = []
     okd = True
     n_init = 0
